@@ -21,6 +21,8 @@
 (*   scheme-choice    a Rush-Larsen scheme uses the exponential update for  *)
 (*                    exactly the requested stiff states whose rate depends *)
 (*                    on themselves                                  (C07) *)
+(*   layout-from-sort the index maps are the ones the recorded sort of the  *)
+(*                    complete graph determines                 (C04, C12) *)
 (*   lengths          at return the written slots are exactly 0..n-1 and   *)
 (*                    the declared number of returned entries is n   (C03) *)
 (* A failing rule does not stop the trace: it is recorded and the rest of  *)
@@ -67,6 +69,16 @@ StoreOk(ev) ==
          \E n \in ToSet(ev.uses) : Has(T.requested, n) /\ T.requested[n] = ev.slot
     [] OTHER -> TRUE
 
+\* C04 across events: the index maps in force when a function is emitted are the ones the preceding
+\* sort of the COMPLETE assignment graph determines: state slots = order of the derivatives, monitor slots = order
+\* of the assignments (T.full_order is the SortOrder event recorded in the same process; empty = not recorded)
+DerivsInOrder == SelectSeq(T.full_order, LAMBDA n : Has(T.derivs, n))
+LayoutFromSortOk ==
+  \/ T.full_order = <<>>
+  \/ /\ \A i \in 1..Len(DerivsInOrder) : Has(T.state_index, T.derivs[DerivsInOrder[i]]) /\ T.state_index[T.derivs[DerivsInOrder[i]]] = i - 1
+     /\ Len(DerivsInOrder) = Cardinality(DOMAIN T.state_index)
+     /\ (DOMAIN T.monitor_index = {} \/ \A i \in 1..Len(T.full_order) : Has(T.monitor_index, T.full_order[i]) /\ T.monitor_index[T.full_order[i]] = i - 1)
+
 \* C07: in a Rush-Larsen scheme the store of state X reads the linearisation d<X>_dt_linearized exactly when
 \* the scheme decided to use the exponential update for X; T.stiff is the set of states the caller asked for
 \* (generalized: every state), T.zero_slope the states whose rate does not depend on themselves
@@ -90,6 +102,7 @@ RuleFails(ev) ==
   \cup (IF ev.k = "return" /\ T.expect_n >= 0 /\ ~(ToSet(stored) = 0..(T.expect_n - 1) /\ Len(stored) = T.expect_n) THEN {"lengths-stored"} ELSE {})
   \cup (IF ev.k = "return" /\ T.expect_n >= 0 /\ ev.nret >= 0 /\ ev.nret # T.expect_n THEN {"lengths-returned"} ELSE {})
   \cup (IF ev.k = "other" THEN {"unknown-statement"} ELSE {})
+  \cup (IF l = 1 /\ ~LayoutFromSortOk THEN {"layout-from-sort"} ELSE {})
 
 RECURSIVE SetToSeqF(_)
 SetToSeqF(S) == IF S = {} THEN <<>> ELSE LET x == CHOOSE x \in S : TRUE IN <<x>> \o SetToSeqF(S \ {x})
